@@ -32,6 +32,7 @@ type concScenario struct {
 }
 
 type concReplay struct {
+	Stmt     bool   `json:"statement_level_scheduling"`
 	Kind     string `json:"kind"`
 	Scenario string `json:"scenario"`
 	Choices  []int  `json:"choices"`
@@ -114,6 +115,24 @@ func concStatementLevelOK(run func(x *explore.Exec)) bool {
 	return true
 }
 
+// concPasses: the thorough tier explores statement-level scheduling up to preemption bound 1 and
+// access-based scheduling points up to the full bound (statement level at bound 2 costs hours); the
+// quick tier (bound 1) has a single pass.
+type concPass struct {
+	bound int
+	stmt  bool
+}
+
+func concPasses(bound int, statementLevel bool) []concPass {
+	if !statementLevel {
+		return []concPass{{bound, false}}
+	}
+	if bound <= 1 {
+		return []concPass{{bound, true}}
+	}
+	return []concPass{{1, true}, {bound, false}}
+}
+
 // concExplore runs the scenarios; violations are keyed <id>/concurrent/<key>.
 func concExplore(c *Ctx, id string, scs []*concScenario, boundQuick, boundThorough int, everyStatementOf ...string) {
 	if os.Getenv("VERIF_WIDE") != "1" {
@@ -163,54 +182,59 @@ func concExplore(c *Ctx, id string, scs []*concScenario, boundQuick, boundThorou
 				c.Note("concurrent scenario %s: both requests have the same view when served alone: %s", sc.Name, clipMid(solo[0], 200))
 			}
 		}
-		stats := explore.Run(explore.Config{MaxCost: bound, Deadline: c.Deadline, Shard: c.Shard, Shards: c.Shards, ShardDepth: 2, TolerateDivergence: true, MaxDivergences: 16}, func(x *explore.Exec, own bool) {
-			out, v, berr := concBody(sc, x)
-			if !own {
-				return
+		for _, pass := range concPasses(bound, len(vrt.AllStatements) > 0) {
+			if !pass.stmt {
+				vrt.AllStatements = nil
 			}
-			if strings.HasPrefix(berr, "HARNESS") {
-				c.Error("%s concurrent %s: %s", id, sc.Name, berr)
-				return
-			}
-			c.Inc("evaluations")
-			c.Inc("conc_executions")
-			c.Inc("traces_validated_against_impl")
-			c.Add("transitions", int64(out.Steps))
-			c.SetMax("conc_max_steps_per_execution", int64(out.Steps))
-			order := sched.DescribeOrder(out.Order)
-			c.Distinct("distinct_nontrivial", fmt.Sprintf("conc|%d|%s", si, order))
-			for _, r := range out.Races {
-				if c.Distinct("conc_distinct_unsynchronised_conflicts", r.Key()) {
-					c.Note("unsynchronised conflicting accesses (counted, not the deciding oracle): %s", r.Key())
+			stats := explore.Run(explore.Config{MaxCost: pass.bound, Deadline: c.Deadline, Shard: c.Shard, Shards: c.Shards, ShardDepth: 2, TolerateDivergence: true, MaxDivergences: 16}, func(x *explore.Exec, own bool) {
+				out, v, berr := concBody(sc, x)
+				if !own {
+					return
 				}
-			}
-			rp := concReplay{Kind: concKind, Scenario: sc.Name, Choices: x.Choices(), Order: order}
-			key, what := "", ""
-			if berr != "" {
-				key, what = id+"/concurrent/"+strings.Fields(berr)[0], sc.Name+": "+berr
-			} else if d := concDiffMsg(sc, v, solo); d != "" {
-				key, what = id+"/concurrent/answer-differs-from-serving-alone", d
-			}
-			if key == "" {
-				return
-			}
-			rp.What = what
-			c.confirm(key, fmt.Sprintf("%s [thread order %s]", what, order), len(rp.Choices), rp, func() (string, bool) {
-				_, v2, e2 := concBody(sc, explore.Replay(rp.Choices, nil))
-				if e2 != "" {
-					return id + "/concurrent/" + strings.Fields(e2)[0], true
+				if strings.HasPrefix(berr, "HARNESS") {
+					c.Error("%s concurrent %s: %s", id, sc.Name, berr)
+					return
 				}
-				return id + "/concurrent/answer-differs-from-serving-alone", concDiffMsg(sc, v2, solo) != ""
+				c.Inc("evaluations")
+				c.Inc("conc_executions")
+				c.Inc("traces_validated_against_impl")
+				c.Add("transitions", int64(out.Steps))
+				c.SetMax("conc_max_steps_per_execution", int64(out.Steps))
+				order := sched.DescribeOrder(out.Order)
+				c.Distinct("distinct_nontrivial", fmt.Sprintf("conc|%d|%s", si, order))
+				for _, r := range out.Races {
+					if c.Distinct("conc_distinct_unsynchronised_conflicts", r.Key()) {
+						c.Note("unsynchronised conflicting accesses (counted, not the deciding oracle): %s", r.Key())
+					}
+				}
+				rp := concReplay{Kind: concKind, Stmt: len(vrt.AllStatements) > 0, Scenario: sc.Name, Choices: x.Choices(), Order: order}
+				key, what := "", ""
+				if berr != "" {
+					key, what = id+"/concurrent/"+strings.Fields(berr)[0], sc.Name+": "+berr
+				} else if d := concDiffMsg(sc, v, solo); d != "" {
+					key, what = id+"/concurrent/answer-differs-from-serving-alone", d
+				}
+				if key == "" {
+					return
+				}
+				rp.What = what
+				c.confirm(key, fmt.Sprintf("%s [thread order %s]", what, order), len(rp.Choices), rp, func() (string, bool) {
+					_, v2, e2 := concBody(sc, explore.Replay(rp.Choices, nil))
+					if e2 != "" {
+						return id + "/concurrent/" + strings.Fields(e2)[0], true
+					}
+					return id + "/concurrent/answer-differs-from-serving-alone", concDiffMsg(sc, v2, solo) != ""
+				})
 			})
-		})
-		c.Add("states", int64(stats.Executions))
-		vrt.AllStatements = every
-		if stats.Divergences > 0 {
-			c.Unstable("concurrent scenario %s: %d executions did not reproduce their replayed prefix", sc.Name, stats.Divergences)
-		}
-		if !stats.Exhaustive {
-			c.Exhaustive = false
-			c.Note("concurrent part %s: not exhaustive (level completed %d, divergences %d)", sc.Name, stats.LevelCompleted, stats.Divergences)
+			c.Add("states", int64(stats.Executions))
+			vrt.AllStatements = every
+			if stats.Divergences > 0 {
+				c.Unstable("concurrent scenario %s: %d executions did not reproduce their replayed prefix", sc.Name, stats.Divergences)
+			}
+			if !stats.Exhaustive {
+				c.Exhaustive = false
+				c.Note("concurrent part %s: not exhaustive (level completed %d, divergences %d)", sc.Name, stats.LevelCompleted, stats.Divergences)
+			}
 		}
 	}
 }
@@ -225,6 +249,9 @@ func concReplayOne(c *Ctx, id string, scs []*concScenario, rp concReplay, everyS
 	vrt.AllStatements = map[string]bool{}
 	for _, p := range everyStatementOf {
 		vrt.AllStatements[p] = true
+	}
+	if !rp.Stmt {
+		vrt.AllStatements = nil
 	}
 	defer func() { vrt.Enabled = false; vrt.AllStatements = nil }()
 	for _, sc := range scs {
